@@ -401,6 +401,9 @@ impl<T> Future for ReceiveFuture<'_, T> {
                 _ => {
                     if this.is_stream {
                         this.state = FutureState::Zero;
+                        // the signal of the finished wait is in its final
+                        // state, the next wait needs a fresh (locked) one
+                        this.sig = Signal::new_async();
                         continue;
                     }
                     panic!("polled after result is already returned")
